@@ -6,7 +6,7 @@ patch=$(readlink -f "$1"); props=$2; budget=${3:-30}
 cd /repo || exit 2
 if [ -n "$(git status --porcelain --untracked-files=no)" ]; then echo "sensitivity: /repo is not clean"; exit 2; fi
 git apply "$patch" || { echo "sensitivity: patch does not apply"; exit 2; }
-trap 'cd /repo && git checkout -- . ' EXIT INT TERM
+trap 'cd /repo && git checkout -- . && cd /verif && ./check setup >/dev/null 2>&1' EXIT INT TERM
 if [ "$4" = "--tests" ]; then
   t=$(CARGO_NET_OFFLINE=true cargo test --offline 2>&1 | grep -E "^test result: .* [0-9]+ passed" | head -1)
   echo "tests: $t"
